@@ -1,7 +1,8 @@
 // Package c14: the backend receives a well-formed, self-consistent drawing.
 //
 // Bounded exhaustive exploration of small documents (deviation lattice over a skeleton plus
-// dedicated product families for bookmarks, ids/links and metadata), each rendered through the
+// dedicated product families for bookmarks, ids/links, metadata, border images, painted table
+// parts with and without cells, and svg clip paths / masks), each rendered through the
 // real pipeline onto the recording backend. Oracle: the protocol monitor of the recorder
 // (pages, finite numbers, path before paint/clip, current point, fonts), link/anchor
 // consistency against the generator's model and the laid-out box tree, the reference outline
